@@ -36,7 +36,7 @@ inline Result contained(const std::function<Result()> &body, const std::string &
     return r;
   }
   if (pid == 0) {
-    close(fd[0]);
+    ::close(fd[0]);
     // the child must not touch the parent's statistics / crash files when it dies
     st().out.clear();
     st().crash.clear();
@@ -57,12 +57,12 @@ inline Result contained(const std::function<Result()> &body, const std::string &
     }
     _exit(0);
   }
-  close(fd[1]);
+  ::close(fd[1]);
   std::string out;
   char buf[4096];
   ssize_t n;
   while ((n = read(fd[0], buf, sizeof buf)) > 0) out.append(buf, size_t(n));
-  close(fd[0]);
+  ::close(fd[0]);
   int status = 0;
   waitpid(pid, &status, 0);
   size_t p = out.rfind("\nVVRESULT:");
